@@ -225,7 +225,9 @@ def str_repeat(interp, s, n):
         return out
     # symbolic count: result r with |r| == max(n,0)*|s| and r in (s)*
     if isinstance(s, str):
-        r = p.str('rep', register=False)
+        # a function of the count (uninterpreted, constrained by its defining facts) so that equal counts give equal terms
+        F = z3.Function(f'repeat[{s!r}]', z3.IntSort(), z3.StringSort())
+        r = SymStr(F(_i(n)))
         cnt = ite(n > 0, n, 0)
         p.assume(SymBool(z3.InRe(r.term, z3.Star(z3.Re(z3.StringVal(s))))))
         p.assume(r.length() == cnt * len(s))
@@ -437,6 +439,16 @@ def _str_replace(interp, s, old, new, *a):
     raise Unsupported('str.replace on symbolic string')
 
 
+WS = ' \t\n\r\x0b\x0c'
+
+
+def strip_uf(chars=None, left=True, right=True):
+    """the uninterpreted function standing for s.strip(chars) / lstrip / rstrip (contracts use it to name the result)"""
+    if chars is None:
+        chars = WS
+    return z3.Function(f'strip[{chars!r},{int(left)}{int(right)}]', z3.StringSort(), z3.StringSort())
+
+
 def _strip_chars(interp, s, chars, left, right):
     """s.strip(chars) for a symbolic s and concrete chars: result r with s == a + r + b, a,b in [chars]*,
     r not starting/ending with a char in chars"""
@@ -451,8 +463,7 @@ def _strip_chars(interp, s, chars, left, right):
     a = p.str('strip_l', register=False)
     # the result is a function of (s, chars, side): an uninterpreted function constrained by the defining facts,
     # so that stripping the same string twice yields the same term
-    F = z3.Function(f'strip[{chars!r},{int(left)}{int(right)}]', z3.StringSort(), z3.StringSort())
-    r = SymStr(F(s.term))
+    r = SymStr(strip_uf(chars, left, right)(s.term))
     b = p.str('strip_r', register=False)
     p.assume(SymBool(s.term == z3.Concat(a.term, r.term, b.term)))
     if left:
@@ -468,7 +479,47 @@ def _strip_chars(interp, s, chars, left, right):
     return r
 
 
+SPLIT_MAX = 5
+
+
+def _str_split(interp, s, sep=None, maxsplit=-1):
+    """s.split(sep) for a concrete non-empty sep: fork on the number of fields k = 1..SPLIT_MAX; the fields are
+    functions of (s, sep, i) constrained by  s == f0 + sep + f1 + ... and sep not in fi.  More than SPLIT_MAX
+    fields is outside the model (the path is reported as undecided, never dropped silently)."""
+    p = interp.path
+    if sep is None or is_sym(sep) or sep == '':
+        raise Unsupported('str.split without a concrete separator')
+    for term, ksep, fields in getattr(interp, 'known_splits', ()):
+        # lemma supplied by the contract: s was built as sep.join(fields) from separator-free fields
+        if ksep == sep and term.eq(s.term):
+            if maxsplit < 0 or maxsplit >= len(fields) - 1:
+                return list(fields)
+            head = list(fields[:maxsplit])
+            rest = fields[maxsplit]
+            for f in fields[maxsplit + 1:]:
+                rest = rest + sep + f
+            return head + [rest]
+    if is_sym(maxsplit):
+        raise Unsupported('str.split with symbolic maxsplit')
+    F = z3.Function(f'split[{sep!r}]', z3.StringSort(), z3.IntSort(), z3.StringSort())
+    limit = SPLIT_MAX if maxsplit < 0 else min(SPLIT_MAX, maxsplit + 1)
+    for k in range(1, limit + 1):
+        parts = [SymStr(F(s.term, z3.IntVal(i))) for i in range(k)]
+        joined = parts[0].term
+        for q in parts[1:]:
+            joined = z3.Concat(joined, z3.StringVal(sep), q.term)
+        nosep = [z3.Not(z3.Contains(q.term, z3.StringVal(sep))) for q in parts]
+        last_free = maxsplit >= 0 and k == maxsplit + 1
+        if last_free:
+            nosep = nosep[:-1]      # the last field keeps any further separators
+        cond = SymBool(z3.And(s.term == joined, *nosep))
+        if p.branch(cond):
+            return parts
+    raise Unsupported(f'str.split: more than {SPLIT_MAX} fields')
+
+
 STR_METHODS = {
+    'split': _str_split,
     'startswith': _str_startswith,
     'endswith': _str_endswith,
     'index': _str_index,
